@@ -134,6 +134,13 @@ theorem tr_convert (cs : List Char) : Gen.TrTu.convert cs = convert cs := by
       | error e => rfl
       | ok a => cases a.smallest <;> rfl
 
+/-- the public wrapper `convert` passes the value and the reason of `_convert` on -/
+theorem tr_convertPublic (cs : List Char) : Gen.TrTu.convertPublic cs = convert cs := by
+  unfold Gen.TrTu.convertPublic
+  rw [tr_convert]
+  generalize convert cs = r
+  cases r <;> rfl
+
 /-! ### numbers: divmod on a decimal grid -/
 
 theorem floor_nat_div (a b : Nat) (hb : 0 < b) : ((a : Rat) / (b : Rat)).floor = ((a / b : Nat) : Int) := by
